@@ -183,7 +183,12 @@ func readTimestamp(r io.Reader) (v time.Time, err error) {
 	if err = binary.Read(r, binary.BigEndian, &sec); err != nil {
 		return
 	}
-	return time.Unix(sec, 0).UTC(), nil
+	v = time.Unix(sec, 0).UTC()
+	if year := v.Year(); year < 0 || year > 9999 {
+		// Time.MarshalJSON refuses such a year, and with it the whole item
+		v = time.Time{}.UTC()
+	}
+	return v, nil
 }
 
 /*
